@@ -287,6 +287,28 @@ Definition run_api (m : mstate) (code : Z) (a : list Z) (b : list bytes) : mstat
         end
       end
     end
+  else if code =? 76 then
+    (* secrets pid : the byte strings that must never be readable in a block handed back to the allocator:
+       session encryption keys, salts, the HMAC outer-pad block prefix (auth key xor 0x5c), MKI values *)
+    match assoc (ms_pol m) (arg a 0) with
+    | None => (m, [])
+    | Some p =>
+      let one (km : bytes * bytes) : list outv :=
+        match derive_keys p (fst km) (snd km) with
+        | (_, Some d) =>
+          let k := d_keys d in
+          let ckey_secret (c : ckey) := take (zn (ck_klen c - SRTP_SALT_LEN_c)) (concat (ck_rks c)) in
+          let akey_secret (x : akey) := map (fun b => N.lxor b 92) (ak_key x) in
+          [OB (ckey_secret (k_rtp_c k)); OB (ck_salt (k_rtp_c k)); OB (akey_secret (k_rtp_a k));
+           OB (ckey_secret (k_rtcp_c k)); OB (ck_salt (k_rtcp_c k)); OB (akey_secret (k_rtcp_a k));
+           OB (match k_xtn_c k with Some c => ckey_secret c | None => [] end);
+           OB (match k_xtn_c k with Some c => ck_salt c | None => [] end);
+           OB (k_salt k); OB (k_csalt k);
+           OB (snd km)]
+        | _ => []
+        end in
+      (m, flat_map one (if p_usekey p then take 1 (p_keys p) else take (zn (p_nkeys p)) (p_keys p)))
+    end
   else if (code =? 70) || (code =? 71) then
     (* spec_rtp / spec_rtcp  conf auth tag roc|index | mkey msalt mki xtn_ids pkt : the RFC specification's packet *)
     let q := {| Rfc3711.rp_mkey := nth 0 b []; Rfc3711.rp_msalt := nth 1 b [];
